@@ -28,9 +28,9 @@ as DESIGN section 3 C07 says):
 Widths below struct_min(description) are only executed (crash = violation).
 
 Bounds and cost (measured; the machine was shared, so CPU seconds are the reliable number):
-quick    20.8 k tables, 266.6 k renders, ~2.1 k distinct outcomes, ~620 CPU-s (~40 s wall on 16 idle cores);
-thorough 242 k tables, 3.05 M renders, ~5.4 k distinct outcomes, ~9.3 k CPU-s (~10 min wall on 16 idle cores;
-         53 min measured at load average ~100).
+quick    18.6 k tables, 237.8 k renders, ~2.2 k distinct outcomes, ~580 CPU-s (~40 s wall on 16 idle cores);
+thorough ~240 k tables, ~3.0 M renders, ~5.4 k distinct outcomes, ~9 k CPU-s (~10 min wall on 16 idle cores;
+         53 min measured at load average ~100, before the wide-character runs joined the menu).
 DESIGN planned "<=4 columns, <=3+2 deviations" at 0.8 ms per render; a render of a 3x3 table with nested
 cells costs 9 ms, so the deviation bound is per (shape, filling, default overflow) unit -- see _units().
 """
